@@ -248,13 +248,15 @@ theorem InvR.tolerated {R : PathC} {fs₀ fs : Fs} {done : List Syscall} {sc : S
     | chmod _ _ => simp [toleratedR] at ht
   · exact hi.est sc'' hm hcr c'' k'' hcf hne''
 
-/-- **a repaired run, whatever fails**, keeps the invariant, for some subset of the calls -/
+/-- **a repaired run, whatever fails**, keeps the invariant — for the calls made; all of them if no call failed -/
 theorem InvR.run {R : PathC} {fs₀ : Fs} (flt : Faults) (lflt : Nat → Bool) :
     ∀ (scs : List Syscall) (i : Nat) (fs : Fs) (done : List Syscall), InvR R fs₀ fs done → WellPlaced done scs →
-      ∃ done', (∀ x ∈ done', x ∈ done ∨ x ∈ scs) ∧ InvR R fs₀ (runR flt lflt R i fs scs).fs done' := by
+      ∃ done', (∀ x ∈ done', x ∈ done ∨ x ∈ scs) ∧ (∀ x ∈ done, x ∈ done') ∧
+        ((runR flt lflt R i fs scs).failed = false → ∀ x ∈ scs, x ∈ done') ∧
+        InvR R fs₀ (runR flt lflt R i fs scs).fs done' := by
   intro scs
   induction scs with
-  | nil => intro i fs done hi _; exact ⟨done, fun x hx => Or.inl hx, hi⟩
+  | nil => intro i fs done hi _; exact ⟨done, fun x hx => Or.inl hx, fun x hx => hx, fun _ x hx => absurd hx (by simp), hi⟩
   | cons sc r ih =>
     intro i fs done hi hw
     obtain ⟨hp, hw'⟩ := hw
@@ -265,16 +267,21 @@ theorem InvR.run {R : PathC} {fs₀ : Fs} (flt : Faults) (lflt : Nat → Bool) :
         · exact Or.inr (by simp)
         · exact Or.inl h2
       · exact Or.inr (List.mem_cons_of_mem _ h1)
+    have all : ∀ d' : List Syscall, (∀ x ∈ sc :: done, x ∈ d') → (∀ x ∈ r, x ∈ d') → ∀ x ∈ sc :: r, x ∈ d' := by
+      intro d' h1 h2 x hx
+      rcases List.mem_cons.1 hx with rfl | hx
+      · exact h1 _ (by simp)
+      · exact h2 x hx
     unfold runR
     split
     · rename_i fs' hs
-      obtain ⟨d', h1, h2⟩ := ih (i + 1) fs' (sc :: done) (hi.step hp (stepF_ok hs).2) hw'
-      exact ⟨d', sub d' h1, h2⟩
+      obtain ⟨d', h1, h2, h3, h4⟩ := ih (i + 1) fs' (sc :: done) (hi.step hp (stepF_ok hs).2) hw'
+      exact ⟨d', sub d' h1, fun x hx => h2 x (List.mem_cons_of_mem _ hx), fun hf => all d' h2 (h3 hf), h4⟩
     · split
       · rename_i ht
-        obtain ⟨d', h1, h2⟩ := ih (i + 1) fs (sc :: done) (hi.tolerated hp ht) hw'
-        exact ⟨d', sub d' h1, h2⟩
-      · exact ⟨done, fun x hx => Or.inl hx, hi⟩
+        obtain ⟨d', h1, h2, h3, h4⟩ := ih (i + 1) fs (sc :: done) (hi.tolerated hp ht) hw'
+        exact ⟨d', sub d' h1, fun x hx => h2 x (List.mem_cons_of_mem _ hx), fun hf => all d' h2 (h3 hf), h4⟩
+      · exact ⟨done, fun x hx => Or.inl hx, fun x hx => hx, fun hf => by simp at hf, hi⟩
 
 theorem InvR.start (R : PathC) (fs₀ : Fs) : InvR R fs₀ fs₀ [] :=
   ⟨fun _ h => absurd rfl h, fun _ h => absurd h (by simp)⟩
